@@ -122,6 +122,67 @@ func main() {
 		return true
 	})
 
+	// readRequest: every read from the client connection happens inside the reader goroutine
+	// (`go func() { ... http.ReadRequest(brw.Reader) ... }()`) that precedes the select, i.e. no
+	// path reads the socket without going through the select on p.closing
+	rr := method(file, "readRequest").Body
+	readsInGo, readsOutside, goAt, selAt := 0, 0, -1, -1
+	isRead := func(c *ast.CallExpr) bool {
+		t := src(c.Fun)
+		if t == "http.ReadRequest" {
+			return true
+		}
+		for _, pre := range []string{"brw.", "brw.Reader.", "conn.", "ctx.Session()."} {
+			for _, m := range []string{"Read", "ReadByte", "ReadRune", "ReadLine", "ReadString", "ReadBytes", "ReadSlice", "Peek", "Discard", "WriteTo"} {
+				if t == pre+m {
+					return true
+				}
+			}
+		}
+		return false
+	}
+	for i, st := range rr.List {
+		inGo := false
+		if g, ok := st.(*ast.GoStmt); ok {
+			inGo = true
+			if goAt < 0 {
+				goAt = i
+			}
+			_ = g
+		}
+		if _, ok := st.(*ast.SelectStmt); ok && selAt < 0 {
+			selAt = i
+		}
+		ast.Inspect(st, func(n ast.Node) bool {
+			if c, ok := n.(*ast.CallExpr); ok && isRead(c) {
+				if inGo {
+					readsInGo++
+				} else {
+					readsOutside++
+				}
+			}
+			return true
+		})
+	}
+	if readsInGo+readsOutside == 0 {
+		die("readRequest: no call reading the request found")
+	}
+	readsBehindSelect := readsOutside == 0 && readsInGo > 0 && goAt >= 0 && selAt > goAt
+	// the request is only returned after the select (no return between the go statement and the select)
+	for i, st := range rr.List {
+		if i < selAt {
+			ast.Inspect(st, func(n ast.Node) bool {
+				if _, ok := n.(*ast.FuncLit); ok {
+					return false
+				}
+				if _, ok := n.(*ast.ReturnStmt); ok {
+					readsBehindSelect = false
+				}
+				return true
+			})
+		}
+	}
+
 	// handle: ... p.resmod.ModifyResponse(res) ... if req.Close || res.Close || p.Closing() { res.Close = true; closing = errClose } ... res.Write ... return closing
 	h := method(file, "handle").Body
 	resmod := need("handle", h, "if err := p.resmod.ModifyResponse(res); err != nil {", true)
@@ -161,6 +222,7 @@ func main() {
 	def("handler_closes_then_done", hDone < hClose && hUnlock < hDone, "handleLoop: `defer p.conns.Done()` is deferred BEFORE `defer conn.Close()` (LIFO: the socket is closed first)")
 	def("handler_early_exit_after_register", hClose < hExit, "handleLoop: `if p.Closing() { return }` comes after the Add and both defers")
 	def("reader_select_sees_closing", selClosing, "readRequest: select has `case <-p.closing: return nil, errClose`")
+	def("reader_reads_only_behind_select", readsBehindSelect, "readRequest: every read of the client connection is inside the reader goroutine started before the select; no return before the select")
 	def("decision_after_resmod", resmod < dec, "handle: the close decision is evaluated after the response modifier returned")
 	def("decision_checks_closing", decChecks, "handle: the close decision tests p.Closing()")
 	def("decision_marks_and_closes", decMarks && decCloses, "handle: the decision sets res.Close = true and closing = errClose")
